@@ -370,3 +370,18 @@ Proof.
   intros Hb H. apply parse_int_ok_iff in H; [|exact Hb].
   destruct H as (neg & ds & _ & _ & _ & _ & H). exact H.
 Qed.
+
+(* the header's numbers printed in plain decimal *)
+Lemma decimal_fields ds : ds <> [] -> all_digits ds = true ->
+  ((dec_val ds < 2 ^ 63)%N -> parse_int 64 ds = NumOk (Z.of_N (dec_val ds)) /\
+                              parse_int 64 (c_plus :: ds) = NumOk (Z.of_N (dec_val ds))) /\
+  ((dec_val ds <= 2 ^ 63)%N -> parse_int 64 (c_minus :: ds) = NumOk (- Z.of_N (dec_val ds))%Z) /\
+  ((dec_val ds < 2 ^ 32)%N -> parse_uint 32 ds = NumOk (dec_val ds)) /\
+  (forall k, dec_val (repeat "0"%char k ++ ds) = dec_val ds).
+Proof.
+  intros H1 H2. split; [|split; [|split]].
+  - intros H. split; [apply parse_int_digits|apply parse_int_plus]; try assumption; lia.
+  - intros H. apply parse_int_minus; try assumption; lia.
+  - intros H. apply parse_uint_digits; try assumption; lia.
+  - intros k. apply dec_val_zeros.
+Qed.
